@@ -1,5 +1,6 @@
 import WfModel.GenRunLimit
 import WfProofs.RunLimitWorld
+import WfProofs.RunLimitAbort
 /-!
 # C30 — a workflow instance never runs more concurrent runs than its limit
 
@@ -413,3 +414,47 @@ example : ∃ w1 wk, (execN [.act (.mk 1 (some 1)), .act (.on 1 (.start 1)), .ac
     = some (w1, wk) ∧ (w1.stepD (.on 1 (.begin 2))).get 1 =
       some { limit := some 1, sem := some ⟨0, [(2, .pending)]⟩, holding := [1] } := by
   refine ⟨_, _, rfl, ?_⟩; decide
+
+/-! ## a cancelled run keeps its slot until its run function has ended -/
+
+/-- **Requesting cancellation releases nothing.** `handler.cancel()` / `adapter.abort()` is
+`task.cancel()`: on a run that is inside its limit it is enabled, changes no part of the state
+(semaphore value, waiter queue, holders) and makes no task ready.  The permit moves only when the
+run function has ended (`finish`), i.e. after the control loop has cancelled *and awaited* its
+step workers. -/
+theorem C30_cancel_keeps_slot (acts : List Act) (i r : Nat) (x : Inst)
+    (hx : (exec acts).get i = some x) (hr : r ∈ x.holding) :
+    x.step (.cancel r) = some (x, []) ∧ (exec (acts ++ [.on i (.cancel r)])).get i = some x := by
+  have hstep := Inst.cancel_holder_noop x r (exec_uniq acts i x hx) hr
+  refine ⟨hstep, ?_⟩
+  rw [exec_append, World.get_stepD_on]
+  simp [hx, Inst.stepD, hstep]
+
+example : ∃ x, (exec [.mk 1 (some 1), .on 1 (.start 1), .on 1 (.start 2), .on 1 (.begin 1),
+    .on 1 (.begin 2), .on 1 (.cancel 1)]).get 1 = some x ∧
+    x.holding = [1] ∧ x.sem = some ⟨0, [(2, .pending)]⟩ := by
+  refine ⟨_, rfl, ?_⟩; decide
+
+/-- **The slot is kept until the run has ended.** Whatever happens after a run `r` entered its
+limit — cancellation requests for it, new runs (under whatever run id), other runs finishing,
+garbage collection — as long as `r`'s own run function has not ended, `r` is inside the limit, so
+at most `n - 1` *other* runs of the instance are: a queued or newly started run cannot take the
+place of a run that is still unwinding. -/
+theorem C30_slot_kept_until_finish (acts more : List Act) (i r n : Nat) (x : Inst)
+    (hx : (exec acts).get i = some x) (hr : r ∈ x.holding) (hl : x.limit = some n)
+    (hnf : ∀ o, Act.on i (.finish r o) ∉ more) :
+    ∃ x', (exec (acts ++ more)).get i = some x' ∧ r ∈ x'.holding ∧
+      (x'.holding.erase r).length + 1 ≤ n := by
+  obtain ⟨x', hx', hr', hl'⟩ := foldl_keeps_holder more (exec acts) i r x hx hr hnf
+  rw [exec_foldl] at hx'
+  refine ⟨x', hx', hr', ?_⟩
+  have hb := C30_bound (acts ++ more) i x' n hx' (by rw [hl', hl])
+  have hlen := List.length_erase_of_mem hr'
+  have hpos := List.length_pos_of_mem hr'
+  omega
+
+example : ∃ x', (exec ([.mk 1 (some 1), .on 1 (.start 1), .on 1 (.begin 1)] ++
+    [.on 1 (.cancel 1), .on 1 (.start 2), .on 1 (.start 3), .on 1 (.begin 2), .on 1 (.begin 3),
+     .on 1 (.cancel 1), .on 1 .gc])).get 1 = some x' ∧
+    x'.holding = [1] ∧ x'.waiters = [(2, .pending), (3, .pending)] := by
+  refine ⟨_, rfl, ?_⟩; decide
